@@ -60,18 +60,34 @@ theorem sepLoop_vc (self_ : Tag) (close : Kind) (hclose : close ≠ .Comma) (ite
   · rw [exec_ite_neg _ _ hc, exec_skip]
     exact Sep.refl P s
 
-/-- `expect(open); if !check(close) { item; loop }; expect(close)` inside a fresh node: a list -/
-theorem listNode_vc (opn close : Kind) (hopn : CstPrint.isOpenDelim opn = true) (hclose : CstPrint.isCloseDelim close = true)
-    (item loop : Cmd) (P : List Green → Prop) (hP : ∀ w, P w → ItemOk c w)
+/-- `item; loop` : an item and `(, item)* ,?` -/
+theorem itemLoop_mid (item loop : Cmd) (P : List Green → Prop) (hP : ∀ w, P w → ItemOk c w)
     (hitem : ∀ s, W E c s → Em E c rec (R E c) item s → AppW E P s (exec E rec item s))
-    (hloop : ∀ s, W E c s → Em E c rec (R E c) loop s →
-      ((∃ tail, topCh (exec E rec loop s) = topCh s ++ tail ∧ SepTail c P tail) ∨ AtEnd E (exec E rec loop s)) ∧
-      (AtEnd E s → AtEnd E (exec E rec loop s)))
+    (hloop : ∀ s, W E c s → Em E c rec (R E c) loop s → Sep E c P s (exec E rec loop s) ∧ (AtEnd E s → AtEnd E (exec E rec loop s)))
+    (s : St) (hW : W E c s) (h : Em E c rec (R E c) (.seq item loop) s) :
+    (∃ it tail, topCh (exec E rec (.seq item loop) s) = topCh s ++ (it ++ tail) ∧ ItemOk c it ∧ SepTail c (ItemOk c) tail) ∨
+      AtEnd E (exec E rec (.seq item loop) s) := by
+  simp only [Em] at h
+  obtain ⟨i1, hWi, i2⟩ := h
+  rw [exec_seq]
+  obtain ⟨hl, hend⟩ := hloop _ hWi i2
+  rcases hitem _ hW i1 with ⟨wi, e1, hPi⟩ | hae
+  · rcases hl with ⟨tail, e2, st, _⟩ | hle
+    · exact Or.inl ⟨wi, tail, by rw [e2, e1, List.append_assoc], hP _ hPi, st.mono hP⟩
+    · exact Or.inr hle
+  · exact Or.inr (hend hae)
+
+/-- `expect(open); if !check(close) { mid }; expect(close)` inside a fresh node: a list -/
+theorem listNode_vc (opn close : Kind) (hopn : CstPrint.isOpenDelim opn = true) (hclose : CstPrint.isCloseDelim close = true)
+    (mid : Cmd)
+    (hmid : ∀ s, W E c s → Em E c rec (R E c) mid s →
+      (∃ it tail, topCh (exec E rec mid s) = topCh s ++ (it ++ tail) ∧ ItemOk c it ∧ SepTail c (ItemOk c) tail) ∨
+        AtEnd E (exec E rec mid s))
     (s : St) (hs : topCh s = [])
-    (h : Em E c rec (R E c) (seqs [expect opn, unless_ (.check close) (seqs [item, loop]), expect close]) s) :
-    ListShape c (topCh (exec E rec (seqs [expect opn, unless_ (.check close) (seqs [item, loop]), expect close]) s)) := by
-  have hshow : seqs [expect opn, unless_ (.check close) (seqs [item, loop]), expect close] =
-      .seq (expect opn) (.seq (.ite (.neg (.check close)) (.seq item loop) .skip) (expect close)) := rfl
+    (h : Em E c rec (R E c) (seqs [expect opn, unless_ (.check close) mid, expect close]) s) :
+    ListShape c (topCh (exec E rec (seqs [expect opn, unless_ (.check close) mid, expect close]) s)) := by
+  have hshow : seqs [expect opn, unless_ (.check close) mid, expect close] =
+      .seq (expect opn) (.seq (.ite (.neg (.check close)) mid .skip) (expect close)) := rfl
   rw [hshow] at h ⊢
   simp only [Em] at h
   obtain ⟨h1, hW1, h2, _, h3⟩ := h
@@ -83,18 +99,13 @@ theorem listNode_vc (opn close : Kind) (hopn : CstPrint.isOpenDelim opn = true) 
   by_cases hcl : evalCond E (exec E rec (expect opn) s) (.neg (.check close)) = true
   · rw [exec_ite_pos _ _ hcl] at h3 ⊢
     rw [if_pos hcl] at h2
-    rw [exec_seq] at h3 ⊢
-    obtain ⟨i1, hWi, i2⟩ := h2
-    obtain ⟨hl, hend⟩ := hloop _ hWi i2
-    rcases hitem _ hW1 i1 with ⟨wi, e1, hPi⟩ | hae
-    · rcases hl with ⟨tail, e2, st⟩ | hle
-      · obtain ⟨_, x3, ti3, w3, t3, o3⟩ := em_expect close _ h3
-        have k3 : c.kind ti3 = close := o3.eq hrc
-        rw [x3, t3, e2, e1, x1, t1, hs]
-        refine ⟨_, wi ++ tail, _, ti, w, ti3, w3, by simp, rfl, by rw [k1]; exact hopn, rfl, by rw [k3]; exact hclose, ?_⟩
-        exact Or.inr ⟨wi, tail, rfl, hP _ hPi, st.mono hP⟩
-      · exact (em_expect_atEnd close _ h3 hle).elim
-    · exact (em_expect_atEnd close _ h3 (hend hae)).elim
+    rcases hmid _ hW1 h2 with ⟨wi, tail, e1, hPi, st⟩ | hae
+    · obtain ⟨_, x3, ti3, w3, t3, o3⟩ := em_expect close _ h3
+      have k3 : c.kind ti3 = close := o3.eq hrc
+      rw [x3, t3, e1, x1, t1, hs]
+      refine ⟨_, wi ++ tail, _, ti, w, ti3, w3, by simp, rfl, by rw [k1]; exact hopn, rfl, by rw [k3]; exact hclose, ?_⟩
+      exact Or.inr ⟨wi, tail, rfl, hPi, st⟩
+    · exact (em_expect_atEnd close _ h3 hae).elim
   · rw [exec_ite_neg _ _ hcl, exec_skip] at h3 ⊢
     obtain ⟨_, x3, ti3, w3, t3, o3⟩ := em_expect close _ h3
     have k3 : c.kind ti3 = close := o3.eq hrc
